@@ -136,7 +136,28 @@ def overlap_guarantees(rng, c1, c2):
     if not pool:
         return
     t = gen.rand_term(rng, pool, "dyadic", pmax=1)
-    mode = rng.choice(["identical", "scaled", "implied", "near_equal", "tiny_coefficient"])
+    mode = rng.choice(["identical", "scaled", "implied", "near_equal", "tiny_coefficient", "assumed_and_guaranteed", "assumed_and_guaranteed"])
+    if mode == "assumed_and_guaranteed":
+        # one operand GUARANTEES a bound that the other one ASSUMES (about a connecting variable, or about a shared input): the
+        # assumption is discharged by the guarantee and disappears from the result -- the guarantee must then stay
+        conn_12 = [v for v in c1["o"] if v in c2["i"]]
+        conn_21 = [v for v in c2["o"] if v in c1["i"]]
+        shared_in = [v for v in c1["i"] if v in c2["i"]]
+        bound = F(rng.randint(2, 6))
+        sign = rng.choice([1, -1])
+        if conn_12 and rng.random() < 0.7:
+            y = rng.choice(conn_12)
+            c1["g"].append(({y: F(sign)}, bound))
+            c2["a"].append(({y: F(sign)}, bound - rng.choice([0, 0, 1])))
+        elif conn_21:
+            y = rng.choice(conn_21)
+            c2["g"].append(({y: F(sign)}, bound))
+            c1["a"].append(({y: F(sign)}, bound - rng.choice([0, 0, 1])))
+        elif shared_in:
+            x = rng.choice(shared_in)
+            c1["g"].append(({x: F(sign)}, bound))
+            c2["a"].append(({x: F(sign)}, bound))
+        return
     both = [v for v in c1["i"] + c1["o"] if v in c2["i"] + c2["o"] and v not in (set(c1["o"]) & set(c2["i"])) | (set(c2["o"]) & set(c1["i"]))]
     if mode == "tiny_coefficient":
         # an interface-level guarantee with one coefficient below 1e-6 (9.5e-7) next to an ordinary one, over a shared input
